@@ -186,7 +186,7 @@ def run(tier, replay=None):
             raise C.ToolError("corruption probe: a dictionary write after publication was not rejected")
         b4 = json.loads(json.dumps(base))
         k4 = next(i for i, e in enumerate(b4) if e["ev"] == "fingerprint" and e["when"] == "after")
-        b4[k4]["fp"]["hash"] = "0"
+        b4[k4]["fp"]["hash"] = "0" if b4[k4]["fp"]["hash"] != "0" else "1"
         C.write_ndjson(pp, b4)
         m4, t4, _ = C.tlc_trace("Trace_Concurrent", "Trace_Concurrent_sound.cfg", pp)
         if m4 != k4:
